@@ -10,7 +10,7 @@ package parse
 //@ pred StringValue(rem string) string = strings.Fields(rem)[0]
 
 // "the text after the first space is the value"
-//@ func Command
+//@ func Command(value)
 //@   props C12 C19 C13 C14
 //@   pure
 //@   ensures !strings.Contains(value, " ") ==> result0 == value && result1 == ""
@@ -23,7 +23,7 @@ package parse
 //@ pred ContextName(l string) string = StringValue(CmdRest(l))
 //@ pred DeclaresContext(lines []string, k string) bool = exists j int :: 0 <= j && j < len(lines) && IsContextLine(lines[j]) && ContextName(lines[j]) == k
 
-//@ func Enum
+//@ func Enum(empty, remaining, values)
 //@   props C12 C13
 //@   ensures len(strings.Fields(remaining)) == 0 && empty ==> result == "" && err == nil
 //@   ensures (len(strings.Fields(remaining)) == 0 && !empty) || len(strings.Fields(remaining)) > 1 ==> err != nil
@@ -32,24 +32,24 @@ package parse
 //@   loop 1 invariant forall j int :: 0 <= j && j < idx ==> fields[0] != string(values[j])
 
 // a bare setting or `yes` enables, `no` disables, anything else is an error
-//@ func Bool
+//@ func Bool(remaining)
 //@   props C12
 //@   ensures (err == nil) == BoolOK(remaining)
 //@   ensures err == nil ==> result == BoolValue(remaining)
 
-//@ func String
+//@ func String(remaining)
 //@   props C12 C13
 //@   ensures (err == nil) == StringOK(remaining)
 //@   ensures err == nil ==> result == StringValue(remaining)
 //@   ensures err != nil ==> result == ""
 
-//@ func Regex
+//@ func Regex(remaining)
 //@   props C12
 //@   ensures !StringOK(remaining) ==> err != nil && result == nil
 
 // ---- C19: a line of the flattened doc comment is a setting iff its trimmed text starts with
 // ---- "goverter:"; the setting text is what follows the prefix; lines are appended in scan order ----
-//@ func SettingLines
+//@ func SettingLines(comment)
 //@   props C19 C12 C13
 //@   pure
 //@   at call append#1 assert strings.HasPrefix(strings.TrimSpace(scanner.Text()), "goverter:")
@@ -57,14 +57,14 @@ package parse
 
 // every comment of the group contributes its text: nothing is dropped but the comment markers and at most
 // one leading space (a line like `//<TAB>goverter:x` stays a line and is trimmed later by SettingLines)
-//@ func CommentToString
+//@ func CommentToString(g)
 //@   props C19
 //@   pure
 //@   loop 2 invariant idx > 0 ==> reached("strings.Split#1")
 //@   at call strings.Split#1 assert arg1 == "\n" && strings.Contains(comments[idx], arg0) && len(arg0) + 4 >= len(comments[idx])
 
 // ---- C15: @cwd/ paths are resolved against the working directory, everything else is kept ----
-//@ func File
+//@ func File(cwd, rest)
 //@   props C15
 //@   ensures err == nil && !strings.HasPrefix(StringValue(rest), "@cwd/") ==> result == StringValue(rest)
 //@   ensures !StringOK(rest) ==> err != nil
